@@ -1,6 +1,7 @@
 package main
 
 import (
+	"sync"
 	"bytes"
 	"encoding/binary"
 	"errors"
@@ -618,7 +619,12 @@ func sweepContainers(pj *simdjson.ParsedJson, deep bool) error {
 
 // c19Lookalike: two serialized documents (the second shifted by one tape word) of 600 floats whose
 // bit patterns carry each tag letter in the top byte and a large number in the low 56 bits.
-var c19Lookalike = func() [2][]byte {
+// (built on first use, not at process start: a worker's first use of the library's Serializer is what
+// C20's cold-start trials are about)
+var c19LookalikeOnce sync.Once
+var c19Lookalike [2][]byte
+
+func c19BuildLookalike() [2][]byte {
 	var out [2][]byte
 	for sh := 0; sh < 2; sh++ {
 		var b bytes.Buffer
@@ -644,7 +650,7 @@ var c19Lookalike = func() [2][]byte {
 		out[sh] = s.Serialize(nil, *pj)
 	}
 	return out
-}()
+}
 
 func (w *W) c19Try(st *c19State, g string, blob []byte) {
 	st.idx++
@@ -675,6 +681,7 @@ func (w *W) c19Try(st *c19State, g string, blob []byte) {
 			// a destination whose tape is full of number payload words that look like tape entries
 			// (top byte = every tag letter, low bits large): whatever Deserialize reads from a slot
 			// it has not written in this call is not a tape entry. Refilled before every use (small).
+			c19LookalikeOnce.Do(func() { c19Lookalike = c19BuildLookalike() })
 			lk := c19Lookalike[st.n%2]
 			if lk == nil {
 				continue
